@@ -1415,4 +1415,53 @@ example : parseSize [0x31, 0x6b] = some 1024 := by decide
 example : parseSize [0x31, 0x4b] = none := by decide
 example : parseSize [] = none := by decide
 
+/-! ### non-vacuity witnesses added by the round-6 cross-audit (b-c05) -/
+
+-- late_switch_when_due: a buffering flow (2 bytes held, threshold 3, limit 10) receives 2 more bytes
+example : (run { limit := some 10, thr := some 3, store := false } false .none (fun d => .one d) init
+      [.headers .unknown false, .data [1, 2]]).1.phase = .consume ∧
+    check { limit := some 10, thr := some 3, store := false } .unknown ([1, 2] ++ [3, 4]) = .stream := by decide
+-- unstored_stream_holds_nothing: the state right after that late switch satisfies `hp` and `hb`
+example : (run { limit := some 10, thr := some 3, store := false } false .none (fun d => .one d) init
+      [.headers .unknown false, .data [1, 2], .data [3, 4]]).1.phase = .stream ∧
+    (run { limit := some 10, thr := some 3, store := false } false .none (fun d => .one d) init
+      [.headers .unknown false, .data [1, 2], .data [3, 4]]).1.buf = [] := by decide
+-- buffer_bound_partial / consume_buffer_le_limit: guard and `hp` hold on a non-empty buffering history (3 ≤ 5 held)
+example : (run { limit := some 5, thr := none, store := true } true .none (fun d => .one d) init
+      [.headers .unknown false, .data [1, 2], .data [3]]).1.phase = .consume ∧
+    (run { limit := some 5, thr := none, store := true } true .none (fun d => .one d) init
+      [.headers .unknown false, .data [1, 2], .data [3]]).1.buf.length = 3 := by decide
+-- request_side_independent / upload_unaffected_by_response_timing: the response in the middle of a streamed upload is not refused
+example : RespAlive { limit := none, thr := some 1, store := false } ⟨.none, fun d => .one d⟩ ⟨.none, fun d => .one d⟩ {}
+    [(false, .headers .unknown false), (false, .data [1, 2]), (true, .headers (.known 1) false), (true, .data [9]), (true, .eom),
+     (false, .data [3]), (false, .eom)] := by
+  simp [RespAlive, stepX, step, check, expectedSize, exceeds, relay]
+-- response_over_limit_errors_in_exchange: `hk` for the exchange of the example above (Content-Length 8 > limit 6)
+example : KnownTooLarge { limit := some 6, thr := some 3, store := false }
+    (run { limit := some 6, thr := some 3, store := false } true .none (fun d => .one d) init []).1
+    (.headers (.known 8) false) :=
+  ⟨6, rfl, Or.inl ⟨rfl, 8, rfl, by decide, by decide⟩⟩
+-- wireRun_segmentation_independent: the tied receive path ends `done` on a chunked body cut inside the size line
+example : (wireRun { limit := none, thr := some 2, store := false } false .none (fun d => .one d) .chunked
+    [[0x33, 0x0d], [0x0a, 0x61], [0x62, 0x63, 0x0d, 0x0a, 0x30, 0x0d, 0x0a, 0x0d, 0x0a]] false).st.phase = .done := by decide
+example : (dataOf (wireRun { limit := none, thr := some 2, store := false } false .none (fun d => .one d) .chunked
+    [[0x33, 0x0d, 0x0a, 0x61, 0x62, 0x63, 0x0d, 0x0a, 0x30, 0x0d, 0x0a, 0x0d, 0x0a]] false).outs).flatten = [0x61, 0x62, 0x63] := by decide
+-- streamed_wire_exact: `hok` for a duplicating callable
+example : SizesOk (dataOf (run { limit := none, thr := none, store := false } false .callable (fun d => .many [d, d])
+    (step { limit := none, thr := none, store := false } false .callable (fun d => .many [d, d]) init (.headers .unknown false)).1
+    ([[1], [2, 3]].map Ev.data ++ [Ev.eom])).2) := by
+  intro c hc
+  have : c ∈ [[1], [1], [2, 3], [2, 3], [], []] := by
+    have e : dataOf (run { limit := none, thr := none, store := false } false .callable (fun d => .many [d, d])
+      (step { limit := none, thr := none, store := false } false .callable (fun d => .many [d, d]) init (.headers .unknown false)).1
+      ([[1], [2, 3]].map Ev.data ++ [Ev.eom])).2 = [[1], [1], [2, 3], [2, 3], [], []] := by decide
+    rw [e] at hc; exact hc
+  simp at this
+  rcases this with rfl | rfl | rfl <;> decide
+-- parseSize_suffix: `hu`
+example : (([0x6b], 1024) : Bytes × Nat) ∈ Gen.C07.sizeUnits := by decide
+-- stream_starts_when_due: `hdue` (third alternative) together with `hnot`
+example : check { limit := some 10, thr := some 3, store := false } (.known 5) [] = .stream ∧
+    check { limit := some 10, thr := some 3, store := false } (.known 5) [] ≠ .abort := by decide
+
 end MitmVerif.Props.C07
